@@ -46,6 +46,24 @@ func dumpFacts(m *Model, what string) {
 		}
 		return
 	}
+	if strings.HasPrefix(what, "effects:") {
+		ea := m.Effects()
+		for _, fn := range m.ModFns {
+			if !strings.Contains(fnKey(fn), strings.TrimPrefix(what, "effects:")) {
+				continue
+			}
+			sum := ea.sums[fn]
+			fmt.Printf("== %s\n", fnKey(fn))
+			if sum == nil {
+				fmt.Println("   (no summary)")
+				continue
+			}
+			for _, w := range sum.writes {
+				fmt.Printf("   write %s (%s) origin=%+v at %s in %s\n", w.kind, w.what, w.o, w.pos, fnKey(w.fn))
+			}
+		}
+		return
+	}
 	if what == "renames" {
 		for _, n := range curAliases.notes {
 			fmt.Println(n)
